@@ -103,7 +103,7 @@ class Token(str):
         inst.source = source
         # convert pathlib.Path to a str, since we rely on this
         # being a string downstream
-        inst.filename = filename or ""
+        inst.filename = str(filename) if filename else ""
         return inst
 
     @overload  # type: ignore[override]
